@@ -210,8 +210,9 @@ func (c *gengoCtx) pkgExecute(pctx corecontext.Context, pkg string, generators .
 			return fmt.Errorf("`%s` generate failed for %s: %w", g.Name(), pkgCtx.pkg.Pkg().Path(), err)
 		}
 
-		for _, fn := range pkgCtxForGen.defers {
-			if err := fn(pkgCtxForGen); err != nil {
+		// a callback may register further callbacks, so the list can grow while it is walked
+		for i := 0; i < len(pkgCtxForGen.defers); i++ {
+			if err := pkgCtxForGen.defers[i](pkgCtxForGen); err != nil {
 				return fmt.Errorf("`%s` defer generate failed for %s: %w", g.Name(), pkgCtx.pkg.Pkg().Path(), err)
 			}
 		}
